@@ -18,6 +18,7 @@ type (
 
 var (
 	NewCPRNG           = common.NewCPRNG
+	SetCommonVerifHook = common.SetVerifHook
 	FastRandomBigInt   = common.FastRandomBigInt
 	RandomQR           = common.RandomQR
 	HashCommit         = common.HashCommit
